@@ -26,8 +26,16 @@ message in wait_for_drop_completion is the identity on the model state and dropp
 The canonical history is a list of Model/Worker.v labels; `chk_proto` replays it with vm_compute: it must be a trace of the
 model from the initial state that ends in an exited state with the observed outcome and store content.
 
-  check(rep_prefix, tier, seed) -> list of disagreements   (counters in LAST_INFO)
-  python3 -m harness.worker_proto [n_specs [seed [tier]]]  self test
+  check(rep_prefix, tier, seed, n_specs=None, focus=None) -> list of disagreements   (counters in LAST_INFO; FOCUS: what C08 / C09 pay for)
+  report(rep, "C08"|"C09", tier, seed)                    what harness/c08.py and harness/c09.py call (proof + check + findings)
+  replay_main(case, prop)                                 ./check <prop> --replay <file> for a stored case (kind "worker_proto")
+  slow_consumer_case(pause_s, rep_prefix) -> [problems]   one paused-consumer stream (for C13)
+  python3 -m harness.worker_proto [n_specs|- [seed [tier [C08|C09]]]]  self test
+  python3 -m harness.worker_proto --case <workerdrop|stale|requeue|slow:<s>> <out.json>   one slow special case (child of check)
+
+The slow special cases (a worker dying in its drop path: 5 s stall; a DROP_COMPLETE that arrives after the 5 s wait gave up and is polled
+later; a step result put back by a wait that then times out; a stream consumer pausing for > 10 s) sleep most of the time: check()
+observes them in parallel subprocesses and merges their digests (term for chk_proto, case for the replay, judge lines, counters).
 """
 from __future__ import annotations
 
@@ -50,6 +58,7 @@ from harness.orch import cq_plan, flight_server, stop_flight_server, flight_keys
 REQ = ["MV.Model.Orch", "MV.Model.Worker"]
 INFRA_ERRORS = ("BrokenPipeError", "EOFError", "ConnectionResetError", "ConnectionRefusedError")
 LAST_INFO: Dict[str, Any] = {}
+LAST_RUNS: List[Tuple[Any, ...]] = []      # one small key per observed run of the last check (for the caller's coverage counters)
 _now = time.monotonic_ns
 
 
@@ -307,11 +316,15 @@ def install() -> None:
             return o_poll(self)
         OBS.o("poll_begin", busy=False)
         OBS.in_poll = True
+        raised = None
         try:
             return o_poll(self)
+        except BaseException as e:  # noqa: BLE001
+            raised = type(e).__name__
+            raise
         finally:
             OBS.in_poll = False
-            OBS.o("poll_end", busy=False)
+            OBS.o("poll_end", busy=raised is not None, raised=raised)
     WorkerManager.poll_result_queues = poll  # type: ignore[method-assign]
 
     o_wait = WorkerManager.wait_for_drop_completion
@@ -403,6 +416,17 @@ def install() -> None:
         OBS.o("spawn", w=str(cfw_uuid), pid=proc.pid)
         return proc, cq, rq
     WorkerManager.create_worker_process = cwp2  # type: ignore[method-assign]
+
+    o_send = WorkerManager.send_command
+
+    def send_command(self: Any, cfw_uuid: Any, command: Any) -> Any:
+        try:
+            return o_send(self, cfw_uuid, command)
+        except BaseException as e:  # noqa: BLE001
+            if OBS.is_main():
+                OBS.o("sendfail", w=str(cfw_uuid), exc=type(e).__name__)
+            raise
+    WorkerManager.send_command = send_command  # type: ignore[method-assign]
 
     o_att = WorkerManager.add_thread_task
 
@@ -610,8 +634,9 @@ def _scratch() -> str:
 
 
 def observe(spec: Dict[str, Any], mode: str, variant: str = "run", fault: Optional[Dict[str, Any]] = None,
-            delays: Optional[Dict[str, float]] = None, timeout: float = 40.0) -> Dict[str, Any]:
-    """mode 'T' | 'M'; variant 'run' | 'stream' | 'abandon'; fault {'kind': calc|upload|result|prepare|artifacts|finaldrop|
+            delays: Optional[Dict[str, float]] = None, timeout: float = 40.0, expect: Optional[Dict[str, Any]] = None) -> Dict[str, Any]:
+    """mode 'T' | 'M'; variant 'run' | 'stream' | 'stream:pause:<s>:<k>' (the consumer sleeps s seconds after item k) | 'abandon' |
+    'abandon:<k>' (close the stream after k items); fault {'kind': calc|upload|result|prepare|send|artifacts|finaldrop|
     workerdrop, 'sid': int}.  Returns the raw records, the plan and the outcome."""
     from mloda.user import ParallelizationMode
     logging.disable(logging.CRITICAL)
@@ -636,6 +661,10 @@ def observe(spec: Dict[str, Any], mode: str, variant: str = "run", fault: Option
         OBS.fault[kind] = str(steps[fault["sid"]].uuid)
     elif kind in ("artifacts", "finaldrop", "workerdrop"):
         OBS.fault[kind] = True
+    elif kind == "send":
+        # a step that really cannot be pickled (a local function among its attributes; the run executes a deep copy of the plan,
+        # functions are copied by reference): crash point CSend inside WorkerManager.send_command
+        steps[fault["sid"]]._verif_unpicklable = lambda: None
     modes = {ParallelizationMode.MULTIPROCESSING} if mode == "M" else {ParallelizationMode.THREADING}
     kw: Dict[str, Any] = {}
     keys_before: Set[str] = set()
@@ -646,33 +675,50 @@ def observe(spec: Dict[str, Any], mode: str, variant: str = "run", fault: Option
     base_threads = set(threading.enumerate())
     out: Dict[str, Any] = {"status": None}
 
+    verdict = threading.Lock()
+
     def target() -> None:
         try:
             if variant == "run":
-                sess.run(parallelization_modes=modes, **kw)
-            elif variant == "stream":
-                for _ in sess.stream_run(parallelization_modes=modes, **kw):
-                    pass
+                out["result"] = sess.run(parallelization_modes=modes, **kw)
+            elif variant.startswith("stream"):
+                # "stream" / "stream:pause:<seconds>:<k>": a consumer that pauses after its k-th item (compute_stream is suspended at
+                # the yield meanwhile: no command is sent to any worker, no result is polled)
+                pause_s, pause_at = (float(variant.split(":")[2]), int(variant.split(":")[3])) if variant.startswith("stream:pause:") else (0.0, -1)
+                out["items"] = []
+                for it in sess.stream_run(parallelization_modes=modes, **kw):
+                    out["items"].append(it)
+                    if len(out["items"]) == pause_at:
+                        time.sleep(pause_s)
             else:
+                # "abandon" / "abandon:k": the consumer takes k items (default 1), then closes the generator
+                k_items = int(variant.split(":")[1]) if ":" in variant else 1
                 g = sess.stream_run(parallelization_modes=modes, **kw)
                 try:
-                    next(g)
+                    for _ in range(k_items):
+                        next(g)
                 except StopIteration:
                     pass
                 g.close()
-            out["status"] = "ok"
+            with verdict:
+                if out["status"] is None:
+                    out["status"] = "ok"
         except BaseException as e:  # noqa: BLE001
-            out["status"] = "raised"
-            out["exc"] = f"{type(e).__name__}: {str(e)[-200:]}"
-            import traceback as _tb
-            out["tb"] = _tb.format_exc()[-1500:]
+            with verdict:
+                if out["status"] is not None:
+                    return                      # the watchdog has already recorded "hang": whatever the clean-up makes this thread raise is noise
+                out["status"] = "raised"
+                out["exc"] = f"{type(e).__name__}: {str(e)[-200:]}"
+                import traceback as _tb
+                out["tb"] = _tb.format_exc()[-1500:]
     OBS.active = True
     t0 = time.time()
     th = threading.Thread(target=target, daemon=True)
     th.start()
     th.join(timeout)
-    if th.is_alive():
-        out["status"] = "hang"
+    with verdict:
+        if out["status"] is None:
+            out["status"] = "hang"
     OBS.active = False
     out["wall"] = round(time.time() - t0, 3)
     # leftovers (then clean up what an injected fault left behind)
@@ -712,6 +758,18 @@ def observe(spec: Dict[str, Any], mode: str, variant: str = "run", fault: Option
                spec=spec)
     OBS.fault = {}
     uni.dispose()
+    out["expect"] = expect or {}
+    if out["expect"].get("stream_equals_batch") and out["status"] == "ok":
+        # the streamed tables against the batch result of the same request computed in SYNC mode by a fresh session
+        from harness.c01 import canon_result
+        try:
+            uni2 = Universe(spec, Listener())
+            batch = canon_result(uni2.prepare().run(parallelization_modes={ParallelizationMode.SYNC}))
+            uni2.dispose()
+            out["stream_vs_batch"] = None if canon_result(out.get("items") or []) == batch else \
+                "the multiset of streamed tables differs from the SYNC batch result of the same request"
+        except Exception as e:  # noqa: BLE001
+            out["stream_vs_batch"] = f"could not compare the stream with the batch result: {type(e).__name__}: {str(e)[:120]}"
     return out
 
 
@@ -809,6 +867,7 @@ def build_history(ob: Dict[str, Any]) -> Dict[str, Any]:
     pending_visit: Optional[int] = None      # ts of a visit that has produced no label yet
     polled = False
     body_crash = False
+    received = 0                             # items that left compute_stream (the consumer got them)
 
     def close_visit(ts: int) -> None:
         nonlocal pending_visit, polled
@@ -857,9 +916,12 @@ def build_history(ob: Dict[str, Any]) -> Dict[str, Any]:
             emit(ts, ("OPoll", tuple(taken)))
             pending_visit = pending_visit if pending_visit is not None else ts
             polled = True
-            if taken and taken[-1][1][0] == "RDropComplete":
+            if r.get("raised"):
+                # poll_result_queues itself raised (the behaviour before repair 10693fe on a late DROP_COMPLETE): the model's poll
+                # never does (Worker_poll_never_raises) - no label for it, the history continues with the finally block
                 pending_visit = None
                 body_crash = True
+                ob["poll_raised"] = r["raised"]
         elif k == "psr":
             if r["r"] == "raise":
                 if pending_visit is not None and polled and not body_crash:
@@ -884,12 +946,19 @@ def build_history(ob: Dict[str, Any]) -> Dict[str, Any]:
             pass
         elif k == "exec_end":
             # stamped at exec_begin for the send (the put happens inside): use the begin record's ts
-            b = next(x for x in reversed(recs[:i]) if x["k"] == "exec_begin")
-            emit(b["ts"], ("OExec", bool(r["ok"])))
+            bi = max(j for j in range(i) if recs[j]["k"] == "exec_begin")
+            b = recs[bi]
+            if not r["ok"] and any(x["k"] == "sendfail" for x in recs[bi:i]):
+                emit(b["ts"], ("OSendFail",))
+            else:
+                emit(b["ts"], ("OExec", bool(r["ok"])))
             pending_visit = None
             if not r["ok"]:
                 body_crash = True
         elif k == "yield":
+            if state == "yield":
+                emit(ts, ("ONext",))              # the next item of the same drain (no loop head in between)
+            received += 1
             state = "yield"
         elif k == "abandon":
             emit(ts, ("OAbandon",))
@@ -935,9 +1004,11 @@ def build_history(ob: Dict[str, Any]) -> Dict[str, Any]:
         xk = "XRaisedBody" if body_crash else "XRaisedHead"
     else:
         xk = "XNone"
+    if ob["status"] == "hang":
+        xk = "XNone"                 # whatever the abandoned thread raised while being cleaned up is not the run's outcome
     # OHead(exit) labels carry the value decided by the outcome; the model recomputes it
     return {"hist": hist, "exit": xk, "wof": wof, "wdrop": wdrop, "children": children, "wfail": wfail,
-            "keys_left": bool(ob["keys_left"]), "n_workers": len(widx) if mode == "M" else len({l[1] for l in hist if l[0] == "OJoin"})}
+            "keys_left": bool(ob["keys_left"]), "received": received, "n_workers": len(widx) if mode == "M" else len({l[1] for l in hist if l[0] == "OJoin"})}
 
 
 def _in_poll(recs: List[Dict[str, Any]], i: int) -> bool:
@@ -990,7 +1061,7 @@ def _fix_registers(labels: List[Tuple[Tuple[Any, ...], Dict[str, Any], int]]) ->
 # ----------------------------------------------------------------------------------------------------------------------
 def cq_label(l: Tuple[Any, ...]) -> str:
     k = l[0]
-    if k in ("OHead", "OVisit", "OEndScan", "OResume", "OAbandon", "OClose"):
+    if k in ("OHead", "OVisit", "OEndScan", "OResume", "OAbandon", "OClose", "OSendFail", "ONext"):
         return k
     if k == "OPoll":
         return "OPoll " + cq_list(f"({cq_nat(w)}, {('RDone ' + cq_nat(m[1])) if m[0] == 'RDone' else 'RDropComplete'})" for w, m in l[1])
@@ -1015,20 +1086,25 @@ def cq_case(plan: Dict[str, Any], mode: str, stream: bool, h: Dict[str, Any]) ->
             f"pc_children := {al(h['children'], lambda v: cq_list(cq_nat(x) for x in v))}; "
             f"pc_wfail := {al(h['wfail'], lambda v: 'Some ' + ('CCalc' if v == 'calc' else 'CUpload'))}; "
             f"pc_hist := {cq_list(cq_label(l) for l in h['hist'])}; pc_exit := {h['exit'] if h['exit'] != 'XNone' else 'XNormal'}; "
-            f"pc_keys_left := {cq_bool(h['keys_left'])} |}}")
+            f"pc_keys_left := {cq_bool(h['keys_left'])}; pc_received := {cq_nat(h['received'])} |}}")
 
 
 # ----------------------------------------------------------------------------------------------------------------------
 # generation, replay in Coq, judging
 # ----------------------------------------------------------------------------------------------------------------------
 def spec_stale_drop_complete() -> Tuple[Dict[str, Any], Dict[str, float]]:
-    """Witness of C06-mp-stale-drop-complete: two unordered steps on ONE object (S0 fast, S1 > 5 s) and a third step on another
-    object that is still running when the late DROP_COMPLETE arrives."""
+    """Witness of the former finding C06-mp-stale-drop-complete (fixed:10693fe): two unordered steps on ONE object (S0 fast, S1 > 5 s)
+    and a third step on another object that is still running when the late DROP_COMPLETE arrives.
+    The root has ONE column on purpose: the root step uploads its data only when FeatureSet.any_uuid of the root step happens to be
+    the column the other framework reads (ExecutionPlan.add_tfs, need_to_upload); with two root columns that depends on a set order
+    that varies between runs, and when the root step does not upload, the transform step races with S0's upload
+    ("Try to get an empty apache flight": observed once in ~10 runs of the two-column variant) - a different, order-dependent
+    failure inside the known domain C06-unordered-conflicting-steps that would make this run's expected outcome (3 results) flaky."""
     spec = {"groups": [
-        {"name": "R0", "kind": "root", "cfw": "PyArrowTable", "cols": {"a": [1, 2, 3], "b": [4, 5, 6]}},
+        {"name": "R0", "kind": "root", "cfw": "PyArrowTable", "cols": {"a": [1, 2, 3]}},
         {"name": "S0", "kind": "derived", "cfw": "PyArrowTable", "features": {"s0": {"inputs": ["a"], "c0": 0, "coefs": [1]}}},
         {"name": "S1", "kind": "derived", "cfw": "PyArrowTable", "features": {"s1": {"inputs": ["a"], "c0": 1, "coefs": [2]}}},
-        {"name": "T", "kind": "derived", "cfw": "PandasDataFrame", "features": {"t": {"inputs": ["b"], "c0": 2, "coefs": [1]}}}],
+        {"name": "T", "kind": "derived", "cfw": "PandasDataFrame", "features": {"t": {"inputs": ["a"], "c0": 2, "coefs": [1]}}}],
         "request": ["s0", "s1", "t"]}
     return spec, {"S1": 6.0, "T": 9.0}
 
@@ -1047,12 +1123,16 @@ def gen_specs(rng: random.Random, n: int) -> List[Dict[str, Any]]:
 
 
 def judge(ob: Dict[str, Any], h: Dict[str, Any]) -> List[str]:
-    """End-to-end predicates of C08 / C09 evaluated directly on the observation (independent of the model)."""
+    """End-to-end predicates of C08 / C09 / C13 evaluated directly on the observation (independent of the model).
+    ob["expect"] (optional) = what the case was built to show: {"ok": the run must succeed, "requeue_timeout": the history must contain
+    a put-back followed by a timed-out wait on the same queue, "all_items": n items must reach the consumer, "stream_equals_batch":
+    observe() compared the streamed tables with the SYNC batch result}."""
     bad = []
     kind = (ob["fault"] or {}).get("kind")
+    exp = ob.get("expect") or {}
     if ob["status"] == "hang":
         bad.append("the call did not return within the watchdog")
-    if kind in ("calc", "upload") and h["wfail"] and ob["status"] == "ok" and ob["variant"] != "abandon":
+    if kind in ("calc", "upload") and h["wfail"] and ob["status"] == "ok" and not ob["variant"].startswith("abandon"):
         bad.append(f"a worker failed on step(s) {sorted(h['wfail'])} but the call returned normally (failure lost)")
     if kind not in ("artifacts",) and ob["procs_left"]:
         bad.append(f"{ob['procs_left']} worker process(es) alive after the call")
@@ -1060,50 +1140,225 @@ def judge(ob: Dict[str, Any], h: Dict[str, Any]) -> List[str]:
         bad.append(f"{ob['threads_left']} worker thread(s) alive after the call")
     if kind not in ("artifacts", "finaldrop") and ob["keys_left"]:
         bad.append(f"datasets left in the Flight store: {len(ob['keys_left'])}")
+    if ob.get("poll_raised"):
+        bad.append(f"poll_result_queues raised {ob['poll_raised']} (a message on a result queue that is not a step uuid made the run fail)")
+    if exp.get("ok") and ob["status"] != "ok":
+        bad.append(f"a run in which nothing fails ended with status {ob['status']}: {ob.get('exc')}")
+    if exp.get("requeue_timeout") and ob["status"] != "hang" and not _has_requeue_then_timeout(h["hist"]):
+        bad.append("the witness did not exercise what it was built for: no result message was put back (ORequeue) during a wait that "
+                   "then timed out (OTimeout) - timing of the machine; not a defect of the implementation by itself")
+    if exp.get("all_items") is not None and ob["status"] == "ok" and h["received"] != exp["all_items"]:
+        bad.append(f"the consumer received {h['received']} item(s) instead of {exp['all_items']}")
+    if exp.get("stream_equals_batch") and ob.get("stream_vs_batch"):
+        bad.append(ob["stream_vs_batch"])
     return bad
 
 
-def check(rep_prefix: str, tier: str, seed: int, n_specs: Optional[int] = None) -> List[Dict[str, Any]]:
+def _has_requeue_then_timeout(hist: List[Any]) -> bool:
+    """ORequeue w s ... OTimeout w with no OGot w in between: a step result was taken and put back by a wait that then gave up."""
+    open_: Set[int] = set()
+    for l in hist:
+        if l[0] == "ORequeue":
+            open_.add(l[1])
+        elif l[0] == "OGot":
+            open_.discard(l[1])
+        elif l[0] == "OTimeout" and l[1] in open_:
+            return True
+    return False
+
+
+FOCUS = {
+    # which THREADING faults / MULTIPROCESSING faults / slow special cases (run in parallel subprocesses) a caller pays for
+    None: {"tf": ("calc", "result", "prepare", "artifacts"), "mf": ("calc", "result", "prepare", "send", "artifacts", "finaldrop", "upload"),
+           "slow": ("workerdrop", "stale", "requeue", "slow:11"), "slow_thorough": ("workerdrop", "workerdrop", "slow:31"), "mp_abandon": True},
+    # C08: every place where something fails and must be reported (or is lost by design: workerdrop), and the runs in which nothing
+    # fails but a late DROP_COMPLETE is polled / a put-back result has to survive a timed-out wait
+    "C08": {"tf": ("calc", "result", "prepare"), "mf": ("calc", "upload", "result", "prepare", "send"),
+            "slow": ("workerdrop", "stale", "requeue"), "slow_thorough": ("workerdrop", "workerdrop"), "mp_abandon": False},
+    # C09: what is left behind on every exit path: all variants, failures inside the finally block, abandoned MP streams; and the
+    # worker that must still be there after the consumer of a stream paused
+    "C09": {"tf": ("calc", "artifacts"), "mf": ("calc", "artifacts", "finaldrop", "send"), "slow": ("slow:11",), "slow_thorough": ("slow:31",),
+            "mp_abandon": True},
+}
+
+
+# ----------------------------------------------------------------------------------------------------------------------
+# one observed run -> digest (JSON-able: what check() needs, so that slow cases can be observed in parallel subprocesses)
+# ----------------------------------------------------------------------------------------------------------------------
+def observe_digest(spec: Dict[str, Any], mode: str, variant: str, fault: Optional[Dict[str, Any]] = None,
+                   delays: Optional[Dict[str, float]] = None, expect: Optional[Dict[str, Any]] = None,
+                   timeout: float = 40.0) -> Tuple[Dict[str, Any], Optional[Dict[str, Any]]]:
+    """Observe (re-observing when the connection to the multiprocessing manager broke), canonicalise, judge.  Returns (digest, run);
+    run = {"ob", "h", "delays"} or None when the observation itself failed (then digest["observe_error"] says why)."""
+    retries = leaked = 0
+    case0 = {"kind": "worker_proto", "spec": spec, "mode": mode, "variant": variant, "fault": fault, "delays": delays, "expect": expect}
+    try:
+        for attempt in range(3):
+            ob = observe(spec, mode, variant, fault, delays, timeout=timeout, expect=expect)
+            # the connection to the multiprocessing manager (a separate OS process) occasionally breaks on a loaded machine
+            # (BrokenPipeError / EOFError out of a proxy call): infrastructure the model assumes reliable -> observe again
+            if ob.get("exc") and any(k in ob["exc"] for k in INFRA_ERRORS) and attempt < 2:
+                retries += 1
+                leaked += ob["procs_left"]
+                continue
+            break
+        h = build_history(ob)
+    except Exception as e:  # noqa: BLE001
+        return {"observe_error": f"observation failed: {type(e).__name__}: {str(e)[:200]}", "case": case0, "mode": mode, "variant": variant,
+                "fault_kind": (fault or {}).get("kind", "none"), "infra_retries": retries, "infra_leaked": leaked}, None
+    run = {"ob": ob, "h": h, "delays": delays}
+    hist = h["hist"]
+    dg = {"term": cq_case(ob["plan"], mode, variant != "run", h), "case": _case_of(run), "judge": judge(ob, h), "mode": mode,
+          "variant": variant, "fault": ob["fault"] or None, "fault_kind": (ob["fault"] or {}).get("kind", "none"),
+          "triggered": _fault_triggered(ob, h), "exit": h["exit"], "keys_left": h["keys_left"], "hist_len": len(hist),
+          "idle_scans": ob["idle_scans"], "timeouts": sum(1 for l in hist if l[0] == "OTimeout"),
+          "requeues": sum(1 for l in hist if l[0] == "ORequeue"), "requeue_then_timeout": _has_requeue_then_timeout(hist),
+          "received": h["received"], "stale": any(l[0] == "OPoll" and any(m[0] == "RDropComplete" for _, m in l[1]) for l in hist),
+          "n_workers": h["n_workers"], "plan_steps": len(ob["plan"]["steps"]), "wall": ob["wall"],
+          "infra_retries": retries, "infra_leaked": leaked}
+    return dg, run
+
+
+# ---- the slow special cases --------------------------------------------------------------------------------------------
+def spec_requeue_timeout() -> Tuple[Dict[str, Any], Dict[str, float]]:
+    """Witness for "a result that wait_for_drop_completion put back survives a timed-out wait": three unordered steps on ONE object
+    (its worker executes them in plan order: fast, 2 s, 7 s) and a step on another object.  The fast step is collected, its drop
+    command queues behind the two slow steps, the 5 s wait takes the 2 s step's result from the queue and puts it back, then times
+    out while the 7 s step is still running.  Losing the put-back message would leave that step running for ever.
+    The delays are assigned by plan position (the planner decides the order of unordered steps)."""
+    spec = {"groups": [
+        {"name": "R0", "kind": "root", "cfw": "PyArrowTable", "cols": {"a": [1, 2, 3]}},
+        {"name": "S0", "kind": "derived", "cfw": "PyArrowTable", "features": {"s0": {"inputs": ["a"], "c0": 0, "coefs": [1]}}},
+        {"name": "S1", "kind": "derived", "cfw": "PyArrowTable", "features": {"s1": {"inputs": ["a"], "c0": 1, "coefs": [2]}}},
+        {"name": "S2", "kind": "derived", "cfw": "PyArrowTable", "features": {"s2": {"inputs": ["a"], "c0": 2, "coefs": [3]}}},
+        {"name": "T", "kind": "derived", "cfw": "PandasDataFrame", "features": {"t": {"inputs": ["a"], "c0": 2, "coefs": [1]}}}],
+        "request": ["s0", "s1", "s2", "t"]}
+    uni = Universe(spec, Listener())
+    plan = export_plan(uni.prepare(), uni)
+    uni.dispose()
+    order = [s["group"] for s in plan["steps"] if s["kind"] == "FG" and s["group"] in ("S0", "S1", "S2")]
+    return spec, {order[0]: 0.0, order[1]: 2.0, order[2]: 7.0, "T": 3.0}
+
+
+def spec_slow_consumer() -> Dict[str, Any]:
+    """A chain of three requested feature groups on the root's framework (one object, one worker process): the next link is submitted
+    only after the previous one was collected, i.e. only while the consumer is NOT holding an item."""
+    return {"groups": [
+        {"name": "R0", "kind": "root", "cfw": "PyArrowTable", "cols": {"a": [1, 2, 3]}},
+        {"name": "D1", "kind": "derived", "cfw": "PyArrowTable", "features": {"d1": {"inputs": ["a"], "c0": 1, "coefs": [2]}}},
+        {"name": "D2", "kind": "derived", "cfw": "PyArrowTable", "features": {"d2": {"inputs": ["d1"], "c0": 2, "coefs": [3]}}},
+        {"name": "D3", "kind": "derived", "cfw": "PyArrowTable", "features": {"d3": {"inputs": ["d2"], "c0": 3, "coefs": [5]}}}],
+        "request": ["d1", "d2", "d3"]}
+
+
+def special_case(name: str) -> List[Dict[str, Any]]:
+    """Observe one slow special case; returns digests (normally one)."""
+    if name == "workerdrop":
+        dg, _ = observe_digest(_drop_all_spec(), "M", "run", {"kind": "workerdrop"})
+    elif name == "stale":
+        sspec, sdel = spec_stale_drop_complete()
+        dg, _ = observe_digest(sspec, "M", "run", None, sdel, expect={"ok": True})
+    elif name == "requeue":
+        rspec, rdel = spec_requeue_timeout()
+        for attempt in range(2):
+            dg, _ = observe_digest(rspec, "M", "run", None, rdel, expect={"ok": True, "requeue_timeout": True}, timeout=60.0)
+            # a run that succeeded WITHOUT the put-back + timeout (the machine stalled for seconds) shows nothing: observe once more
+            if "observe_error" in dg or dg["case"]["status"] != "ok" or dg["requeue_then_timeout"]:
+                break
+    elif name.startswith("slow:"):
+        pause = float(name.split(":")[1])
+        dg, _ = observe_digest(spec_slow_consumer(), "M", f"stream:pause:{pause:g}:1", None, None,
+                               expect={"ok": True, "all_items": 3, "stream_equals_batch": True}, timeout=40.0 + pause)
+    else:
+        raise ValueError(name)
+    dg["special"] = name
+    return [dg]
+
+
+def slow_consumer_case(pause_s: float, rep_prefix: str = "C13") -> List[str]:
+    """For C13 (and anybody else): ONE streamed MULTIPROCESSING run of a chain of three requested feature groups whose consumer sleeps
+    `pause_s` seconds after the first item (compute_stream is suspended meanwhile, the worker process gets no command).  Returns the
+    list of problems (empty = fine): the run must succeed, deliver all three items, equal the SYNC batch result, leave nothing
+    behind, and its observed history must be a trace of Model/Worker.v (needs coq/Props/Worker.vo: vlib.build_props("Worker")).
+    In-process, takes about pause_s + 3 s; scratch under _build/<rep_prefix>/worker_proto_slow."""
+    dg = special_case(f"slow:{pause_s:g}")[0]
+    if "observe_error" in dg:
+        return [dg["observe_error"]]
+    probs = list(dg["judge"])
+    bad, _ = vlib.run_cases(rep_prefix, "worker_proto_slow", REQ, "chk_proto", [dg["term"]], case_type="pcase")
+    if bad:
+        probs.append(f"the observed history (outcome {dg['exit']}, {dg['received']} item(s) received) is not a trace of Model/Worker.v: "
+                     + _diagnose(rep_prefix, dg["term"]) + " -- history: " + "; ".join(dg["case"]["history"])[:1200])
+    return probs
+
+
+def _spawn_special(names: List[str], tag: str) -> List[Tuple[str, Any, str]]:
+    """Each slow case in its own interpreter (own Flight server, own manager): they mostly sleep, so they run side by side."""
+    import subprocess
+    procs = []
+    for k, name in enumerate(names):
+        out = os.path.join(_scratch(), f"special_{tag}_{os.getpid()}_{k}.json")
+        if os.path.exists(out):
+            os.unlink(out)
+        p = subprocess.Popen([vlib.PY, "-m", "harness.worker_proto", "--case", name, out], cwd=str(vlib.VERIF),
+                             stdout=subprocess.DEVNULL, stderr=subprocess.DEVNULL, start_new_session=True)
+        procs.append((name, p, out))
+    return procs
+
+
+def _collect_special(procs: List[Tuple[str, Any, str]], limit: float) -> List[Dict[str, Any]]:
+    digs: List[Dict[str, Any]] = []
+    deadline = time.time() + limit
+    for name, p, out in procs:
+        err = None
+        try:
+            p.wait(max(1.0, deadline - time.time()))
+        except Exception:  # noqa: BLE001
+            try:
+                import signal
+                os.killpg(p.pid, signal.SIGKILL)          # the observer, its workers, its manager and its Flight server
+            except Exception:  # noqa: BLE001
+                p.kill()
+            err = f"special case {name}: the observing subprocess did not end within {limit:.0f} s"
+        if err is None:
+            try:
+                digs.extend(json.load(open(out)))
+            except Exception as e:  # noqa: BLE001
+                err = f"special case {name}: no result from the observing subprocess (exit code {p.returncode}): {type(e).__name__}"
+        if err is not None:
+            digs.append({"observe_error": err, "case": {"kind": "worker_proto", "special": name}, "mode": "M", "variant": "run",
+                         "fault_kind": "none", "infra_retries": 0, "infra_leaked": 0, "special": name})
+        if os.path.exists(out):
+            os.unlink(out)
+    return digs
+
+
+def check(rep_prefix: str, tier: str, seed: int, n_specs: Optional[int] = None, focus: Optional[str] = None) -> List[Dict[str, Any]]:
     """Observe real runs, replay their histories in Coq against chk_proto, judge them.  Returns disagreements; counters
     in LAST_INFO.  Each disagreement: {"stage": "model"|"judge"|"observe", "what": str, "case": {...}} (JSON-able; the
-    case holds spec, mode, variant, fault, history and can be re-run with replay_case)."""
+    case holds spec, mode, variant, fault, history and can be re-run with replay_case).  `focus` ("C08" | "C09" | None = all)
+    selects the fault kinds and slow special cases, see FOCUS."""
     logging.disable(logging.CRITICAL)
     rng = random.Random(seed * 7919 + 17)
     big = tier == "thorough"
     n = n_specs if n_specs is not None else (110 if big else 7)
     specs = gen_specs(rng, n)
-    runs: List[Dict[str, Any]] = []
+    digs: List[Dict[str, Any]] = []
     dis: List[Dict[str, Any]] = []
-    info: Dict[str, Any] = {"specs": len(specs), "runs": {"T": 0, "M": 0}, "variants": {}, "faults": {}, "fault_triggered": {},
-                            "exit": {}, "hist_len": [], "idle_scans_dropped": 0, "timeouts_5s": 0, "requeues": 0,
-                            "stale_drop_complete_runs": 0, "workers": [], "infra_retries": 0, "infra_retry_leaked_procs": 0}
     t_start = time.time()
     budget = 460.0 if big else 42.0
+    foc = FOCUS[focus]
+    slow_names = list(foc["slow"]) + (list(foc["slow_thorough"]) if big else [])
+    procs = _spawn_special(slow_names, rep_prefix)
 
-    def one(spec: Dict[str, Any], mode: str, variant: str, fault: Optional[Dict[str, Any]], delays: Optional[Dict[str, float]] = None) -> Optional[Dict[str, Any]]:
-        try:
-            for attempt in range(3):
-                ob = observe(spec, mode, variant, fault, delays)
-                # the connection to the multiprocessing manager (a separate OS process) occasionally breaks on a loaded machine
-                # (BrokenPipeError / EOFError out of a proxy call): infrastructure the model assumes reliable -> observe again
-                if ob.get("exc") and any(k in ob["exc"] for k in INFRA_ERRORS) and attempt < 2:
-                    info["infra_retries"] += 1
-                    info["infra_retry_leaked_procs"] += ob["procs_left"]
-                    continue
-                break
-            h = build_history(ob)
-        except Exception as e:  # noqa: BLE001
-            dis.append({"stage": "observe", "what": f"observation failed: {type(e).__name__}: {str(e)[:200]}",
-                        "case": {"spec": spec, "mode": mode, "variant": variant, "fault": fault, "delays": delays}})
-            return None
-        runs.append({"ob": ob, "h": h, "delays": delays})
-        info["runs"][mode] += 1
-        info["variants"][f"{mode}/{variant}"] = info["variants"].get(f"{mode}/{variant}", 0) + 1
-        fk = (fault or {}).get("kind", "none")
-        info["faults"][fk] = info["faults"].get(fk, 0) + 1
-        return runs[-1]
+    def one(spec: Dict[str, Any], mode: str, variant: str, fault: Optional[Dict[str, Any]], delays: Optional[Dict[str, float]] = None,
+            expect: Optional[Dict[str, Any]] = None) -> Optional[Dict[str, Any]]:
+        dg, run = observe_digest(spec, mode, variant, fault, delays, expect)
+        digs.append(dg)
+        return run
 
-    mp_left = 170 if big else 9
+    mp_left = 170 if big else 13
+    n_mp_specs = 0
     for si, spec in enumerate(specs):
         if time.time() - t_start > budget:
             break
@@ -1116,11 +1371,12 @@ def check(rep_prefix: str, tier: str, seed: int, n_specs: Optional[int] = None) 
         fg = [s["sid"] for s in plan["steps"] if s["kind"] == "FG"]
         anys = [s["sid"] for s in plan["steps"]]
         # THREADING: fault-free in three variants, then one fault per crash point that exists in THREADING
-        for variant in ("run", "stream", "abandon"):
+        for variant in ("run", "stream", "abandon") + (("abandon:2",) if foc["mp_abandon"] else ()):
             one(spec, "T", variant, None)
-        tf = [{"kind": "calc", "sid": rng.choice(fg)}, {"kind": "result", "sid": rng.choice(fg)},
-              {"kind": "prepare", "sid": rng.choice(anys)}, {"kind": "artifacts"}]
-        for f in (tf if big else rng.sample(tf, 2)):
+        tf = [f for f in ({"kind": "calc", "sid": rng.choice(fg)}, {"kind": "result", "sid": rng.choice(fg)},
+                          {"kind": "prepare", "sid": rng.choice(anys)}, {"kind": "artifacts"}) if f["kind"] in foc["tf"]]
+        # quick tier: two fault kinds per plan, rotating through the list so that every kind occurs in every run of the check
+        for f in (tf if big else [tf[(2 * si + j) % len(tf)] for j in range(2)]):
             one(spec, "T", rng.choice(["run", "stream"]), f)
         # MULTIPROCESSING (slow): fault-free, then faults
         if mp_left > 0:
@@ -1129,67 +1385,150 @@ def check(rep_prefix: str, tier: str, seed: int, n_specs: Optional[int] = None) 
             # steps during whose execution the worker uploaded (targets of the upload fault)
             up_steps = _upload_steps(base) if base is not None else []
             mf: List[Dict[str, Any]] = [{"kind": "calc", "sid": rng.choice(fg)}, {"kind": "result", "sid": rng.choice(fg)},
-                                        {"kind": "prepare", "sid": rng.choice(anys)}, {"kind": "artifacts"}, {"kind": "finaldrop"}]
+                                        {"kind": "prepare", "sid": rng.choice(anys)}, {"kind": "send", "sid": rng.choice(anys)},
+                                        {"kind": "artifacts"}, {"kind": "finaldrop"}]
             if up_steps:
                 mf.append({"kind": "upload", "sid": rng.choice(up_steps)})
-            for f in (mf if big else rng.sample(mf, 2)):
+            mf = [f for f in mf if f["kind"] in foc["mf"]]
+            for f in (mf if big else [mf[(2 * n_mp_specs + j) % len(mf)] for j in range(2)]):
                 if mp_left <= 0:
                     break
                 one(spec, "M", "run" if f["kind"] != "result" or rng.random() < 0.5 else "stream", f)
                 mp_left -= 1
-            if big and mp_left > 0 and si % 5 == 0:
-                one(spec, "M", "abandon", None)
+            n_mp_specs += 1
+            if foc["mp_abandon"] and mp_left > 0 and (si % 5 == 0 if big else n_mp_specs == 1):
+                one(spec, "M", rng.choice(["abandon", "abandon:2"]), None)
                 mp_left -= 1
-    # the slow special cases: worker-side drop crash (5 s stall) and the stale DROP_COMPLETE witness (6 s)
-    for _ in range(3 if big else 1):
-        one(_drop_all_spec(), "M", "run", {"kind": "workerdrop"})
-    sspec, sdel = spec_stale_drop_complete()
-    one(sspec, "M", "run", None, sdel)
+    # a stream closed in the MIDDLE of a drain: four root groups that finish together (same delay) are collected in one scan
+    if foc["mp_abandon"]:
+        mspec, mdel = _multi_drain_spec()
+        for kk in ((1, 2, 3) if big else (1, 3)):
+            one(mspec, "T", f"abandon:{kk}", None, mdel)
+        one(mspec, "T", "stream", None, mdel)
+        one(mspec, "M", "abandon:2", None, mdel)
+    t_own = round(time.time() - t_start, 1)
+    # the slow special cases observed meanwhile in subprocesses: worker-side drop crash (5 s stall), the late DROP_COMPLETE run (former
+    # finding C06-mp-stale-drop-complete, fixed:10693fe), the put-back result that has to survive a timed-out wait, the paused consumer
+    digs.extend(_collect_special(procs, 150.0 + max([float(x.split(":")[1]) for x in slow_names if x.startswith("slow:")] or [0.0])))
 
-    # ---- replay in Coq
-    terms = []
-    for r in runs:
-        ob, h = r["ob"], r["h"]
-        terms.append(cq_case(ob["plan"], ob["mode"], ob["variant"] != "run", h))
-        info["exit"][h["exit"]] = info["exit"].get(h["exit"], 0) + 1
-        info["hist_len"].append(len(h["hist"]))
-        info["idle_scans_dropped"] += ob["idle_scans"]
-        info["timeouts_5s"] += sum(1 for l in h["hist"] if l[0] == "OTimeout")
-        info["requeues"] += sum(1 for l in h["hist"] if l[0] == "ORequeue")
-        info["workers"].append(h["n_workers"])
-        fk = (ob["fault"] or {}).get("kind", "none")
-        trig = _fault_triggered(ob, h)
-        if trig:
-            info["fault_triggered"][fk] = info["fault_triggered"].get(fk, 0) + 1
-        if any(l[0] == "OPoll" and l[1] and l[1][-1][1][0] == "RDropComplete" for l in h["hist"]):
-            info["stale_drop_complete_runs"] += 1
+    # ---- counters, replay in Coq, judging
+    info: Dict[str, Any] = {"focus": focus or "all", "specs": len(specs), "runs": {"T": 0, "M": 0}, "variants": {}, "faults": {},
+                            "fault_triggered": {}, "exit": {}, "idle_scans_dropped": 0, "timeouts_5s": 0, "requeues": 0,
+                            "requeue_then_timeout_runs": 0, "stale_drop_complete_runs": 0, "items_received": 0,
+                            "special_cases": {}, "infra_retries": 0, "infra_retry_leaked_procs": 0}
+    ok_d = []
+    for d in digs:
+        info["infra_retries"] += d["infra_retries"]
+        info["infra_retry_leaked_procs"] += d["infra_leaked"]
+        if "observe_error" in d:
+            dis.append({"stage": "observe", "what": d["observe_error"], "case": d["case"]})
+            continue
+        ok_d.append(d)
+        info["runs"][d["mode"]] += 1
+        vk = f"{d['mode']}/{d['variant'].split(':')[0]}"
+        info["variants"][vk] = info["variants"].get(vk, 0) + 1
+        info["faults"][d["fault_kind"]] = info["faults"].get(d["fault_kind"], 0) + 1
+        if d["triggered"]:
+            info["fault_triggered"][d["fault_kind"]] = info["fault_triggered"].get(d["fault_kind"], 0) + 1
+        info["exit"][d["exit"]] = info["exit"].get(d["exit"], 0) + 1
+        info["idle_scans_dropped"] += d["idle_scans"]
+        info["timeouts_5s"] += d["timeouts"]
+        info["requeues"] += d["requeues"]
+        info["requeue_then_timeout_runs"] += int(d["requeue_then_timeout"])
+        info["stale_drop_complete_runs"] += int(d["stale"])
+        info["items_received"] += d["received"]
+        if d.get("special"):
+            info["special_cases"][d["special"]] = {"exit": d["exit"], "wall_s": d["wall"], "hist_len": d["hist_len"], "timeouts_5s": d["timeouts"],
+                                                   "requeue_then_timeout": d["requeue_then_timeout"], "stale_drop_complete": d["stale"],
+                                                   "received": d["received"]}
+    terms = [d["term"] for d in ok_d]
     bad: List[int] = []
     if terms:
         bad, ci = vlib.run_cases(rep_prefix, "worker_proto", REQ, "chk_proto", terms, case_type="pcase", shard=25)
         info["coq"] = ci
+        ab = [i for i, d in enumerate(ok_d) if d["variant"].startswith("abandon") and i not in bad]
+        info["abandoned_streams"] = len(ab)
+        info["abandoned_mid_drain"], info["results_lost_by_abandoning"] = _undelivered_counts(rep_prefix, [terms[i] for i in ab])
     for k in bad:
-        ob, h = runs[k]["ob"], runs[k]["h"]
+        d = ok_d[k]
         where = _diagnose(rep_prefix, terms[k])
-        dis.append({"stage": "model", "what": f"observed {ob['mode']}/{ob['variant']} history (fault {ob['fault'] or None}, outcome {h['exit']}, "
-                                              f"keys left {h['keys_left']}) is not a trace of Model/Worker.v ending with that outcome: {where}",
-                    "case": _case_of(runs[k])})
-    for r in runs:
-        ob, h = r["ob"], r["h"]
-        for b in judge(ob, h):
-            dis.append({"stage": "judge", "what": f"{ob['mode']}/{ob['variant']} fault {ob['fault'] or None}: {b}", "case": _case_of(r)})
-        if any(l[0] == "OPoll" and l[1] and l[1][-1][1][0] == "RDropComplete" for l in h["hist"]) and not (ob["fault"] or {}).get("kind"):
-            dis.append({"stage": "known", "key": "C06-mp-stale-drop-complete",
-                        "what": f"fault-free MULTIPROCESSING run raised {ob.get('exit_exc')}: a DROP_COMPLETE that arrived after the 5 s wait "
-                                "timed out was taken by poll_result_queues", "case": _case_of(r)})
-    hl = info["hist_len"]
+        dis.append({"stage": "model", "what": f"observed {d['mode']}/{d['variant']} history (fault {d['fault']}, outcome {d['exit']}, "
+                                              f"keys left {d['keys_left']}, {d['received']} item(s) received by the consumer) is not a trace of "
+                                              f"Model/Worker.v ending with that outcome: {where}",
+                    "case": d["case"]})
+    for d in ok_d:
+        for b in d["judge"]:
+            dis.append({"stage": "judge", "what": f"{d['mode']}/{d['variant']} fault {d['fault']}: {b}", "case": d["case"]})
+    hl = [d["hist_len"] for d in ok_d]
     info["hist_len"] = {"n": len(hl), "min": min(hl) if hl else 0, "max": max(hl) if hl else 0, "sum": sum(hl)}
-    ws_ = info["workers"]
+    ws_ = [d["n_workers"] for d in ok_d]
     info["workers"] = {"min": min(ws_) if ws_ else 0, "max": max(ws_) if ws_ else 0}
+    info["wall_generated_s"] = t_own
     info["wall_s"] = round(time.time() - t_start, 1)
-    info["disagreements"] = len([d for d in dis if d["stage"] != "known"])
+    info["disagreements"] = len(dis)
     LAST_INFO.clear()
     LAST_INFO.update(info)
+    LAST_RUNS[:] = [(d["mode"], d["variant"], json.dumps(d["fault"], sort_keys=True), d["exit"], d["plan_steps"], d["hist_len"]) for d in ok_d]
     return dis
+
+
+def report(rep: Any, prop: str, tier: str, seed: int, n_specs: Optional[int] = None) -> bool:
+    """What a registered check (harness/c08.py, harness/c09.py) does with this tie: build Props/Worker.v, observe + replay + judge with
+    the property's focus, turn EVERY disagreement (stage model / judge / observe) into rep.finding with the case as replay
+    object, add counters.  Returns True when a failing input was reported."""
+    pw = vlib.build_props("Worker")
+    rep.proof(pw)
+    found = False
+    dis = check(prop, tier, seed, n_specs=n_specs, focus=prop if prop in FOCUS else None)
+    for d in dis:
+        c = d["case"]
+        key = json.dumps([c.get("spec"), c.get("mode"), c.get("variant"), c.get("fault")], sort_keys=True)
+        rep.finding(f"worker-proto:{d['stage']}:{key}"[:400], "worker protocol (Model/Worker.v), " + d["stage"] + ": " + d["what"], c)
+        found = True
+    rep.add("worker_protocol", dict(LAST_INFO))
+    rep.count(len(LAST_RUNS))
+    for k in LAST_RUNS:
+        rep.nontrivial(("worker_proto",) + k)
+    tb = ("hand-written Model/Worker.v (labelled transition system of the orchestrator <-> worker protocol); tied by real THREADING / "
+          "MULTIPROCESSING runs observed through class-level wrappers (harness/worker_proto.py) whose canonical histories chk_proto "
+          "replays in vm_compute; wof / wdrop / children_if_root are observed, OS facts (terminate kills, join returns) assumed")
+    if tb not in rep.coverage["trusted_base"]:
+        rep.coverage["trusted_base"].append(tb)
+    if not pw.ok and not found:
+        rep.finding("proof-broken-worker", "Props/Worker.v no longer checks",
+                    {"failed_files": pw.failed_files, "forbidden": pw.forbidden, "log_tail": pw.log[-3000:]}, found_input=False)
+    return found
+
+
+def replay_main(r: Dict[str, Any], prop: str) -> int:
+    """`./check <prop> --replay <file>` for a stored worker_proto case: re-observe on the current tree, replay, judge."""
+    pw = vlib.build_props("Worker")
+    res = replay_case(r, prop)
+    stop_flight_server()
+    print(json.dumps({"props_worker_ok": pw.ok, **res}, indent=1, default=str))
+    return 0 if (pw.ok and res["model_accepts"] and not res["judge"]) else 1
+
+
+def _undelivered_counts(rep_prefix: str, terms: List[str]) -> Tuple[int, int]:
+    """(number of abandoned streams in which the consumer closed the generator in the MIDDLE of a drain, results lost that way) as the
+    model computes them from the observed histories (Model/Worker.v received_proto)."""
+    if not terms:
+        return 0, 0
+    import re
+    out = vlib.coq_eval(rep_prefix, "worker_proto_undelivered", REQ,
+                        "Definition ks : list pcase := [" + ";\n".join(terms) + "].\n"
+                        "Eval vm_compute in (map (fun k => match received_proto k with Some (_, u) => u | None => 0 end) ks).")
+    m = re.search(r"=\s*\[(.*?)\]\s*:\s*list nat", out, re.S)
+    us = [int(x) for x in re.findall(r"\d+", m.group(1))] if m else []
+    return sum(1 for u in us if u > 0), sum(us)
+
+
+def _multi_drain_spec() -> Tuple[Dict[str, Any], Dict[str, float]]:
+    """Four requested root groups (one object each - sibling groups on ONE object would conflict in THREADING, known domain
+    C06-unordered-conflicting-steps), each sleeping the same 60 ms: their results arrive within one or two loop iterations, so a
+    drain of compute_stream holds several items (the consumer can close it mid-drain)."""
+    groups = [{"name": f"R{i}", "kind": "root", "cfw": "PyArrowTable", "cols": {f"a{i}": [i + 1, i + 2, i + 3]}} for i in range(4)]
+    return {"groups": groups, "request": [f"a{i}" for i in range(4)]}, {f"R{i}": 0.06 for i in range(4)}
 
 
 def _drop_all_spec() -> Dict[str, Any]:
@@ -1231,6 +1570,8 @@ def _fault_triggered(ob: Dict[str, Any], h: Dict[str, Any]) -> bool:
         return ("OCollect", False) in hist
     if k == "prepare":
         return ("OExec", False) in hist
+    if k == "send":
+        return ("OSendFail",) in hist
     if k == "artifacts":
         return ("OArtifacts", False) in hist
     if k == "finaldrop":
@@ -1242,8 +1583,8 @@ def _fault_triggered(ob: Dict[str, Any], h: Dict[str, Any]) -> bool:
 
 def _case_of(r: Dict[str, Any]) -> Dict[str, Any]:
     ob, h = r["ob"], r["h"]
-    return {"spec": ob["spec"], "mode": ob["mode"], "variant": ob["variant"], "fault": ob["fault"] or None, "delays": r.get("delays"),
-            "status": ob["status"], "exc": ob.get("exc"), "exit": h["exit"], "keys_left": ob["keys_left"], "procs_left": ob["procs_left"],
+    return {"kind": "worker_proto", "spec": ob["spec"], "mode": ob["mode"], "variant": ob["variant"], "fault": ob["fault"] or None,
+            "delays": r.get("delays"), "expect": ob.get("expect") or None, "status": ob["status"], "exc": ob.get("exc"), "exit": h["exit"], "keys_left": ob["keys_left"], "procs_left": ob["procs_left"],
             "plan": [{k: v for k, v in s.items() if k in ("sid", "kind", "uuids", "req", "requested")} for s in ob["plan"]["steps"]],
             "wof": h["wof"], "wdrop": h["wdrop"], "children": h["children"], "wfail": h["wfail"],
             "history": [" ".join(str(x) for x in l) for l in h["hist"]]}
@@ -1253,18 +1594,20 @@ def _diagnose(rep_prefix: str, term: str) -> str:
     try:
         out = vlib.coq_eval(rep_prefix, "worker_proto_diag", REQ,
                             f"Definition k : pcase := {term}.\nEval vm_compute in (diag_proto k, match exec (cfg_of k) pinit (pc_hist k) with "
-                            "Some st => Some (pc st, flight st) | None => None end).")
+                            "Some st => Some (pc st, flight st, received_proto k) | None => None end).")
         import re
         m = re.search(r"=\s*\((.*?)\)\s*:\s", out, re.S)
         txt = " ".join((m.group(1) if m else out[-300:]).split())
-        return "model says (first label not enabled, final pc/flight) = " + txt
+        return "model says (first label not enabled, final pc/flight/(received, undelivered)) = " + txt
     except Exception as e:  # noqa: BLE001
         return f"(diagnosis failed: {str(e)[:120]})"
 
 
 def replay_case(case: Dict[str, Any], rep_prefix: str = "Worker") -> Dict[str, Any]:
     """Re-run one case (as stored in a disagreement) against the current tree."""
-    ob = observe(case["spec"], case["mode"], case["variant"], case.get("fault"), case.get("delays"))
+    pause = float(case["variant"].split(":")[2]) if case["variant"].startswith("stream:pause:") else 0.0
+    ob = observe(case["spec"], case["mode"], case["variant"], case.get("fault"), case.get("delays"), timeout=60.0 + pause,
+                 expect=case.get("expect"))
     h = build_history(ob)
     term = cq_case(ob["plan"], ob["mode"], ob["variant"] != "run", h)
     bad, _ = vlib.run_cases(rep_prefix, "worker_proto_replay", REQ, "chk_proto", [term], case_type="pcase")
@@ -1273,21 +1616,41 @@ def replay_case(case: Dict[str, Any], rep_prefix: str = "Worker") -> Dict[str, A
 
 
 def main(argv: List[str]) -> int:
+    if len(argv) > 3 and argv[1] == "--case":
+        # child of check(): observe one slow special case, write its digests as JSON, then leave without waiting for anything a run
+        # that never ended has left behind (its thread, its manager process): cf. lib/main._leave
+        logging.disable(logging.CRITICAL)
+        try:
+            digs = special_case(argv[2])
+        except BaseException as e:  # noqa: BLE001
+            digs = [{"observe_error": f"special case {argv[2]}: {type(e).__name__}: {str(e)[:200]}",
+                     "case": {"kind": "worker_proto", "special": argv[2]}, "mode": "M", "variant": "run", "fault_kind": "none",
+                     "infra_retries": 0, "infra_leaked": 0, "special": argv[2]}]
+        with open(argv[3] + ".tmp", "w") as f:
+            json.dump(digs, f, default=str)
+        os.replace(argv[3] + ".tmp", argv[3])
+        t = threading.Thread(target=stop_flight_server, daemon=True)
+        t.start()
+        t.join(10)
+        for p in multiprocessing.active_children():
+            try:
+                p.kill()
+            except Exception:  # noqa: BLE001
+                pass
+        os._exit(0)
     n = int(argv[1]) if len(argv) > 1 and argv[1] != "-" else None
     seed = int(argv[2]) if len(argv) > 2 else 0
     tier = argv[3] if len(argv) > 3 else "quick"
     pr = vlib.build_props("Worker")
     print("Props/Worker.v:", "ok" if pr.ok else "BROKEN", f"{pr.discharged}/{pr.obligations} statements,", sorted(set(pr.assumptions)))
-    dis = check("Worker", tier, seed, n_specs=n)
+    dis = check("Worker", tier, seed, n_specs=n, focus=(argv[4] if len(argv) > 4 else None))
     stop_flight_server()
     print(json.dumps(LAST_INFO, indent=1, default=str))
     for d in dis[:12]:
-        print("KNOWN" if d["stage"] == "known" else "DISAGREEMENT", d["stage"], d["what"])
-        if d["stage"] != "known":
-            print("   case:", json.dumps({k: v for k, v in d["case"].items() if k in ("mode", "variant", "fault", "exit", "status", "exc")}))
-            print("   history:", "; ".join(d["case"].get("history", []))[:1500])
-    real = [d for d in dis if d["stage"] != "known"]
-    return 1 if (real or not pr.ok) else 0
+        print("DISAGREEMENT", d["stage"], d["what"])
+        print("   case:", json.dumps({k: v for k, v in d["case"].items() if k in ("mode", "variant", "fault", "exit", "status", "exc")}))
+        print("   history:", "; ".join(d["case"].get("history", []))[:1500])
+    return 1 if (dis or not pr.ok) else 0
 
 
 if __name__ == "__main__":
